@@ -9,7 +9,8 @@ Output : /verif/lean/C2paModel/Gen/C31FfiGuards.lean   (Lean table, consumed by 
 For every `#[no_mangle]` function it records, per parameter, the declared kind and the
 ordered list of *uses* of that parameter in the body (token scan, shadowing by `let`
 respected).  A use is one of a closed list of recognised shapes (guard macros of
-cimpl/macros.rs, `is_null` early returns, conditional uses, opaque casts, raw uses).
+cimpl/macros.rs — for `cimpl_free!(p, T)` with the type argument T —, `is_null` early returns,
+conditional uses, opaque casts, raw uses).
 Anything else makes the translator exit non-zero (fail closed): the check then reports a
 broken obligation instead of silently proving a theorem about a stale table.
 
@@ -111,6 +112,13 @@ HANDLE_TYPES = {
     "C2paStream": "stream",
     "C2paHttpResolver": "resolver",
 }
+# types a pointer can be tracked with, as written in the second argument of `cimpl_free!(p, T)`
+# (type-checked release, cimpl/utils.rs cimpl_free_typed); spaces removed
+FREE_TYPES = dict(HANDLE_TYPES)
+FREE_TYPES.update({
+    "std::ffi::CString": "cstring", "CString": "cstring",
+    "Box<[u8]>": "bytes",
+})
 CALLBACK_TYPES = {
     "SignerCallback", "ProgressCCallback", "C2paHttpResolverCallback",
     "ReadCallback", "SeekCallback", "WriteCallback", "FlushCallback",
@@ -339,6 +347,14 @@ def scan_body(fname, params, body):
                     if tyname not in HANDLE_TYPES:
                         raise Unsupported(f"{fname}: {v} with unknown type {tyname}")
                     ty = HANDLE_TYPES[tyname]
+                if kind == "free" and len(args) >= 2:
+                    # `cimpl_free!(p, T)`: released only when tracked with type T
+                    if len(args) != 2:
+                        raise Unsupported(f"{fname}: {v} with {len(args)} arguments")
+                    tyname = text(args[1]).replace(" ", "")
+                    if tyname not in FREE_TYPES:
+                        raise Unsupported(f"{fname}: {v} with unknown type {tyname}")
+                    ty = FREE_TYPES[tyname]
                 # remaining arguments must not mention other raw parameters except `bytes` length scalars
                 for a in args[1:]:
                     for t in a:
@@ -590,6 +606,7 @@ def main():
                 owned = [p for p in r["params"] if p["kind"] == "ownedArray"]
                 btxt = text(body)
                 r["frees_array"] = bool(owned) and "c2pa_string_free" in btxt and "Vec :: from_raw_parts" in btxt
+                r["elem_ty"] = ""
                 if owned and not r["frees_array"]:
                     raise Unsupported(f"{r['name']}: releases a string array in a shape the model does not know")
                 matched.update(r["sigtext"].encode())
@@ -599,6 +616,16 @@ def main():
         die(str(e))
     except (IndexError, KeyError) as e:
         die(f"scanner ran off the token stream: {e!r}")
+
+    # the element release of `c2pa_free_string_array` is a call of `c2pa_string_free`: it has the
+    # type check (or not) of that row's release event
+    sf = [r for r in all_rows if r["name"] == "c2pa_string_free"]
+    for r in all_rows:
+        if r["frees_array"]:
+            fe = [e for e in sf[0]["events"] if e["use"] == "free"] if len(sf) == 1 else []
+            if len(fe) != 1 or len(sf[0]["events"]) != 1:
+                die(f"{r['name']}: releases elements through c2pa_string_free, whose body is not a single release")
+            r["elem_ty"] = fe[0]["ty"]
 
     # reviewed exception list
     exc = json.load(open(os.path.join(ROOT, "translators/c31_exceptions.json")))["exceptions"]
@@ -677,6 +704,8 @@ def emit_lean(rows):
         L.append(f"    ret := RKind.{RET_CTOR[r['ret']]}")
         L.append(f"    retTy := {lean_ty(r['ret_hty'])}")
         L.append(f"    freesArray := {'true' if r['frees_array'] else 'false'}")
+        if r["frees_array"]:
+            L.append(f"    elemTy := {lean_ty(r['elem_ty'])}")
         L.append(f"    setsLast := {'true' if r['sets_last'] else 'false'} }}")
         L.append("")
     L.append("def ffiGuards : List FnRow := [")
